@@ -121,10 +121,10 @@ class Normalizer:
         self._active: List[str] = []
 
     # ------------------------------------------------------------------ which functions are expanded
-    def _is_helper(self, f: FuncInfo) -> bool:
+    def _is_helper(self, f: FuncInfo, allow_nested=False) -> bool:
         if f.qualname in self.known or f.qualname in getattr(self.prog, "renamed", {}).values():
             return False
-        if f.kind not in ("function", "method", "staticmethod"):
+        if f.kind not in ("function", "method", "staticmethod") and not (f.kind == "nested" and f.parent is not None and allow_nested):
             return False
         if f.name.startswith("__") and f.name.endswith("__"):
             return False
@@ -251,6 +251,10 @@ class Normalizer:
         self.res._calls.pop(f.qualname, None)
         return out
 
+    def known_nested_hosts(self) -> Set[str]:
+        """Reference functions that already had a nested helper on the reference tree (their closures are left alone)."""
+        return {q.split(".<locals>.")[0] for q in self.known if ".<locals>." in q}
+
     def run(self):
         if not self.known:
             return self
@@ -266,6 +270,11 @@ class Normalizer:
         self.generators: Dict[str, FuncInfo] = {}
         for q, f in list(self.prog.functions.items()):
             if self._is_helper(f):
+                self.helpers[q] = f
+            elif f.kind == "nested" and f.parent is not None and f.parent.qualname not in self.known_nested_hosts() \
+                    and self._is_helper(f, allow_nested=True):
+                # a closure: a call from its own host function can be expanded in place (its free variables are the
+                # host's variables, read at call time either way)
                 self.helpers[q] = f
             elif self._is_generator_helper(f):
                 self.generators[q] = f
@@ -284,7 +293,23 @@ class Normalizer:
             f = self.prog.functions.get(q)
             if f is not None:
                 self._coalesce_copies(f)
+                self._drop_noops(f)
         return self
+
+    def _drop_noops(self, f: FuncInfo):
+        """`x = x` and stray `pass` statements left behind by the expansion."""
+        for n in ast.walk(f.node):
+            for fld in ("body", "orelse", "finalbody"):
+                lst = getattr(n, fld, None)
+                if isinstance(lst, list) and lst and isinstance(lst[0], ast.stmt):
+                    keep = [st for st in lst if not (
+                        (isinstance(st, ast.Assign) and len(st.targets) == 1 and isinstance(st.targets[0], ast.Name)
+                         and isinstance(st.value, ast.Name) and st.value.id == st.targets[0].id)
+                        or (isinstance(st, ast.Pass) and len(lst) > 1))]
+                    if not keep:
+                        keep = [ast.copy_location(ast.Pass(), lst[0])]
+                    if len(keep) != len(lst):
+                        lst[:] = keep
 
     # ------------------------------------------------------------------ t__h = e; ...; a = t__h   ==>   a = e; ...
     def _coalesce_copies(self, f: FuncInfo):
@@ -588,7 +613,7 @@ class Normalizer:
             return None
         if g.qualname not in self.helpers or g.qualname in self._active or g.qualname == f.qualname:
             return None
-        if g.parent is not None:
+        if g.parent is not None and g.parent is not f:
             return None
         return g
 
